@@ -46,6 +46,8 @@ CLAIMED = {
             "DESIGN.md §4 C17"),
     "C20": ("model_checking", "engine UpdateConfig with each optional ratio absent|symbolic over the full range (all 15 masks, sequences of 2-3, symbolic instantiate ratios), vAMM instantiate/UpdateConfig likewise with the twap interval from the boundary set; after every call z3 proves all stored ratios <= 1 and maintenance <= initial; AddVamm x decimals enumerated; caps: symbolic open-interest and holding caps, whitelist enumerated, caps changed between trades, margins symbolic",
             "DESIGN.md §4 C20"),
+    "C18": ("model_checking", "vAMM alone on enumerated block schedules (gaps, several trades per block incl. an extreme intermediate price, queries in the trading block) with symbolic swap amounts: TwapPrice for intervals shorter/equal/longer than the history is proved to lie within the end-of-block spot prices in effect during the window and to equal the spot when unchanged; one snapshot per traded block; the repository's price feed with symbolic prices at enumerated timestamps: TWAP within the submitted prices overlapping the window, latest / n-rounds-back return exactly what was submitted",
+            "DESIGN.md §4 C18"),
     "C19": ("model_checking", "two engines: (1) Kani/CBMC bit-precise harnesses over ALL 2^129 operand representations (incl. -0) for add/sub/neg/abs/constructors/cmp/eq/sign predicates and checked-vs-unchecked agreement, loop-free so complete for the input space (thorough adds full-width checked_mul); (2) symx/z3 for full-width mul, truncating div, add/sub, ordering and the Display/FromStr/serde round trip with symbolic 128-bit magnitudes",
             "DESIGN.md §3, §4 C19"),
 }
